@@ -136,7 +136,7 @@ def model_check(runs, work, stats):
             if inv not in got:
                 raise Machinery("model run %s: expected violation of %s, got %s\n%s"
                                 % (r["name"], inv, got, res["out"][-2000:]))
-            entry["result"] = "violates " + inv + " (expected: models a recorded defect)"
+            entry["result"] = "violates " + inv + " (expected: %s)" % r.get("why", "models a recorded defect")
         stats["model_runs"].append(entry)
         log("  [M] %-28s %8d distinct %9d generated %6.1fs  %s" %
             (r["name"], res["distinct"], res["generated"], res["wall"], entry["result"]))
